@@ -52,6 +52,9 @@ CHECKS = {
  "C11": (MC, "5/C11",
   "Misuse classes (index outside the shape incl. negative, string too long for the space fixed at creation, array update of another length, same-length update with larger dynamic items, union non-member by object and by name, buffer of another context, offset without buffer) executed on symbolically placed objects with live neighbours: an exception must be raised, the write log must be unchanged at that point for every placement, object and neighbours keep their values.",
   W_NOTE, W_TECH),
+ "C20": (MC, "5/C20 (section 15)",
+  "PARTIAL. Pickle round trip of a group of objects sharing one symbolically placed buffer (the object, a second object of the same type, an Int64 array), for every catalogue struct/array type: the object protocol pickle drives (__reduce_ex__(4), the classes' own __getstate__/__setstate__ or instance __dict__, one memo) is executed in Python over the real classes with solver terms as offsets/capacity/free list; afterwards, for every placement: same value at every field, same offset and size, restored objects share one buffer distinct from the original's, writes through the copy stay inside the copy (frame, z3) and do not reach the original, an allocation in the restored buffer is disjoint (z3) from every restored object (the restored free list is a working allocator state), the restored object can be the source of a copy. The serialiser itself (the C pickle module, NumPy's array pickling, ContextCpu state) runs only in the concrete validation pass and in replays, which use the real pickle.dumps/loads.",
+  W_NOTE + " C20: stub S10 (copy.deepcopy = pickle's object protocol with by-value leaves; inconclusive if an xobjects class defined __deepcopy__/__copy__); hybrid classes: see the C20 section of DESIGN.md; GPU contexts outside the claim.", W_TECH),
  "C13": (MC, "5/C13",
   "PARTIAL. The real slice-arithmetic primitives of BufferNumpy and BufferByteArray (update_from_native incl. overlapping same-storage copies, copy_to_native, to_native, update_from_buffer, to_bytearray, to_pointer_arg) and XBuffer.update_from_xbuffer (same context / other context / other buffer kind) are executed on a symbolic byte-container model whose length and content are solver variables; for every capacity, offset, source offset and length with ranges inside both containers a Skolem-position postcondition is proved: exactly the requested bytes change, to exactly the source bytes, lengths unchanged, source untouched, extracted copies are not views. NOT covered: update_from_nplike, to_nplike/to_nparray, scalar.py helpers (NumPy dtype conversion/views are C code outside the technique).",
   "S6: container model of bytearray / 1-D int8 ndarray slicing (clamping, bytearray length change, ndarray broadcast error, view aliasing), validated each run against the real containers on ~2000 small cases; len/bytearray names in xobjects.context_cpu are replaced for the run.",
@@ -69,7 +72,6 @@ NA = {
  "C17": "kernel-call glue around cffi/ctypes pointers and NumPy scalar constructors: values cross into C objects a symbolic executor cannot follow and there is no arithmetic to encode beyond ctypes.data+_offset; needs compiled kernels and byte-level observation (execution, not solving). DESIGN.md section 6.",
  "C18": "descriptor protocol, __dict__ copying, object identity and ownership flags of hybrid classes: no integer state for a solver to quantify over; the storage-level facts it relies on are decided under C08/C09. DESIGN.md section 6.",
  "C19": "recursive conversion between Python containers, default elision by np.any(default != value): NumPy comparisons and container traversal, nothing symbolic within reach of the solver-based technique. DESIGN.md section 6.",
- "C20": "pickle is a C module operating on object graphs; what can break is attribute state after __setstate__, not arithmetic; not encodable for a solver. DESIGN.md section 6.",
 }
 PENDING = "check for this property is not built yet at this commit (planned, see DESIGN.md section 5); not claimed until it runs"
 ALL = ["C%02d" % i for i in range(1, 21)]
